@@ -187,6 +187,7 @@ type VErr struct {
 type VProbe struct {
 	Kind      string `json:"kind"`
 	Delivered bool   `json:"delivered"`
+	Note      string `json:"note,omitempty"` // "tombstone": the plain delete was passed on, the DeletedFinalStateUnknown one was not
 }
 
 func (v *VerifCtl) handlers(kind string) (cache.ResourceEventHandlerFuncs, bool) {
@@ -223,7 +224,7 @@ func deepCopyObj(obj interface{}) interface{} {
 
 // probe runs the real event handler of the kind on (copies of) the old and the new object, the way the
 // informer would, and reports whether a task reached the sync queue.
-func (v *VerifCtl) probe(kindName string, old interface{}, existed bool, obj interface{}) VProbe {
+func (v *VerifCtl) probe(kindName, key string, old interface{}, existed bool, obj interface{}) VProbe {
 	h, ok := v.handlers(kindName)
 	if !ok {
 		return VProbe{}
@@ -238,8 +239,17 @@ func (v *VerifCtl) probe(kindName string, old interface{}, existed bool, obj int
 		p.Kind = "add"
 		h.AddFunc(deepCopyObj(obj))
 	case existed:
+		// a delete reaches the handler either as the object or, after a missed watch event, as a tombstone
 		p.Kind = "delete"
 		h.DeleteFunc(deepCopyObj(old))
+		plain := v.drainQueue() > 0
+		h.DeleteFunc(cache.DeletedFinalStateUnknown{Key: key, Obj: deepCopyObj(old)})
+		tomb := v.drainQueue() > 0
+		p.Delivered = plain && tomb
+		if plain && !tomb {
+			p.Note = "tombstone"
+		}
+		return p
 	default:
 		return p
 	}
@@ -256,7 +266,7 @@ func (v *VerifCtl) Apply(kindName, key string, obj interface{}) (evs []VEvent, w
 		return nil, nil, verr, err
 	}
 	old, existed, _ := s.GetByKey(key)
-	v.LastProbe = v.probe(kindName, old, existed, obj)
+	v.LastProbe = v.probe(kindName, key, old, existed, obj)
 	verrText := v.validationErrorText(obj)
 	if obj != nil {
 		if err := s.Add(obj); err != nil {
